@@ -1,6 +1,8 @@
 """C10 - stream consumers account for every test exactly once (StreamToDict, StreamSummary, StreamToExtendedDecorator).
-Input : [run, ...]            run = [event, ...]   event = (tid status tags runnable fname fbytes eof mime route ts)
-Trace : [[dict-reports, summary, extended-log], ...] one per run (see TTV/Drv/C10.lean)
+Input : [run, ...]            run = [[event, ...], [fault, ...]]   event = (tid status tags runnable fname fbytes eof mime route ts)
+        fault = number (0-based, per consumer and run) of a hand-over at which the consumer's callback raises
+Trace : [[dict-reports, dict-raised, dict-stop-raises, summary, extended-log, ext-raised, ext-stop-raises, real-started], ...] one per run
+        (see TTV/Drv/C10.lean)
 The same three consumer objects are driven through all runs of an input (startTestRun must reset them).
 """
 import itertools
@@ -15,19 +17,41 @@ def ev(tid=None, status=None, tags=None, runnable=True, fname=None, fbytes=None,
     return [S.opt(tid), S.opt(status), S.opt(tags), runnable, S.opt(fname), S.opt(fbytes), eof, S.opt(mime), route, S.opt(ts)]
 
 
+class _Fault(Exception):
+    """what a failing consumer raises"""
+
+
+class _FaultyExtSink(S.ExtSink):
+    """extended result whose outcome methods raise at the planned hand-overs (after logging the call)"""
+
+    def __init__(self, clock, plan):
+        S.ExtSink.__init__(self, clock)
+        self.plan = plan
+
+    def _o(self, kind, t, details):
+        S.ExtSink._o(self, kind, t, details)
+        self.plan['ext'] += 1
+        if self.plan['ext'] - 1 in self.plan['faults']:
+            raise _Fault('outcome method fails')
+
+
 class C10(Prop):
     id = 'C10'
-    budgets = {'quick': 4000, 'thorough': 60000}
+    budgets = {'quick': 4000, 'thorough': 40000}
     time_limit = {'quick': 60, 'thorough': 600}
     rule = ('1-2 runs of 0-25 status events over 3 test ids x 4 route codes (None, "0", "1", "0/1") x None/inprogress/6 final statuses/'
             '"unknown" (repeated finals, events after a final, ids re-used on other routes) x tag sets (None, empty, 1-2 tags; set or frozenset) '
             'x 3 file names x chunks (None, empty, 1-3 bytes; ASCII under text types, arbitrary bytes under binary types) x 5 content types / None '
-            'x timestamps (None or one of 9 instants); 10% events without test id. thorough adds every sequence of length <= 4 over a '
+            'x timestamps (None or one of 9 instants); 10% events without test id; in 40% of the runs the consumer callback (StreamToDict on_test, '
+            'the outcome methods of the extended result) raises at 1-3 hand-overs - at a final status or inside stopTestRun - the driver survives '
+            'and repeats stopTestRun until it returns; a real testtools.TestResult behind a second StreamToExtendedDecorator sees every run too '
+            '(its addSkip raises for binary reasons). thorough adds every sequence of length <= 4 over a '
             '14-event alphabet (2 ids, 2 routes, interim/final/file/tag events). non-trivial = at least 2 events with a test id and '
             '(a key with >= 2 lifetimes, or an open lifetime, or a multi-chunk attachment); distinct = distinct input S-expression')
     assumptions = ['content types are opaque tokens: parsing of mime strings (_make_content_type / email) belongs to C16',
 
                    'text-typed attachments carry bytes valid in their charset (StreamSummary formats failed tests\' details and would raise UnicodeDecodeError otherwise; noted in DESIGN section 0)',
+                   'consumer faults are exceptions raised by the callback after it recorded the hand-over; the driver catches them and calls stopTestRun again until it returns normally (what the unchanged code needs in order to report the records still in its table after an exception inside the stopTestRun loop)',
                    'Python dict insertion order / popitem() LIFO order are modelled by an association list',
                    'test ids, tags and file names are drawn from fixed vocabularies (incl. non-ASCII names) and mapped to numbers']
 
@@ -37,6 +61,8 @@ class C10(Prop):
                 '(test id, route code), exactly the lifetimes of that key - each once, closed ones when their final status arrives (in that order), '
                 'open ones at stopTestRun most-recent-first without second timestamp - with last non-None status (else unknown), latest non-None tags, '
                 'first/last timestamps and per file name the concatenation of its non-empty chunks; events without test id change nothing; '
+                'the same holds whatever hand-overs the consumer callback raises at (C10_once_under_faults: the record is popped before the callback, '
+                'so nothing is handed over twice and repeated stopTestRun calls still report every open lifetime); '
                 'StreamSummary.testsRun counts the non-exists reports, each lands in exactly the list its status names, a failed or incomplete test '
                 'makes wasSuccessful() false; StreamToExtendedDecorator replays each report of the exists-free stream as one well-formed bracket. '
                 'The hand-written model is tied to the code by a differential check and by status tables re-extracted from the tree on every run.',
@@ -49,37 +75,91 @@ class C10(Prop):
         return S.extract_tables(repo)
 
     # ----- implementation side
+    def drive(self, consumer, run_events, kwargs_list, skip_exists=False):
+        """feed one run to a consumer the way a robust driver does: survive exceptions out of status(), and call
+        stopTestRun() again until it returns normally.  -> (indices of status calls that raised, stopTestRun calls that raised)"""
+        raised = []
+        k = 0
+        for e, kw in zip(run_events, kwargs_list):
+            if skip_exists and e[1] is not None and e[1][1] == 'exists':
+                consumer.status(**kw)           # dropped by StreamToExtendedDecorator before the table; not counted
+                continue
+            try:
+                consumer.status(**kw)
+            except _Fault:
+                raised.append(k)
+            k += 1
+        stops = 0
+        while True:
+            try:
+                consumer.stopTestRun()
+                break
+            except _Fault:
+                stops += 1
+                if stops > len(run_events) + 2:
+                    raise RuntimeError('stopTestRun keeps raising')
+        return raised, stops
+
     def run_impl(self, inp):
-        from testtools import StreamToDict, StreamSummary, StreamToExtendedDecorator
+        from testtools import StreamToDict, StreamSummary, StreamToExtendedDecorator, TestResult
         try:
             clock = S.Clock()
             reports = []
+            plan = {'faults': (), 'dict': 0, 'ext': 0}
 
             def on_test(d):
                 reports.append([S.un_test_id(d['id']), S.un_tags(d['tags']), S.canon_details(d['details']), d['status'],
                                 S.opt(clock.canon(d['timestamps'][0])), S.opt(clock.canon(d['timestamps'][1]))])
-            ext = S.ExtSink(clock)
+                plan['dict'] += 1
+                if plan['dict'] - 1 in plan['faults']:
+                    raise _Fault('on_test fails')
+            ext = _FaultyExtSink(clock, plan)
+
+            class Real(TestResult):
+                """a real testtools.TestResult: its addSkip raises ValueError for a skip whose reason attachment is not text"""
+                started = []
+
+                def startTest(self, test):
+                    Real.started.append(S.un_test_id(test.id()))
+                    super().startTest(test)
+            real = StreamToExtendedDecorator(Real())
             consumers = [StreamToDict(on_test), StreamSummary(), StreamToExtendedDecorator(ext)]
             summary = consumers[1]
             out = []
             n = 0
-            for run in inp:
+            for events, faults in inp:
                 del reports[:]
                 del ext.ev[:]
-                for c in consumers:
+                del Real.started[:]
+                plan.update(faults=set(faults), dict=0, ext=0)
+                for c in consumers + [real]:
                     c.startTestRun()
-                for e in run:
+                kws = []
+                for e in events:
                     n += 1
-                    kw = S.event_kwargs(e, frozen=(n % 3 == 0))
-                    for c in consumers:
-                        c.status(**kw)
-                for c in consumers:
-                    c.stopTestRun()
+                    kws.append(S.event_kwargs(e, frozen=(n % 3 == 0)))
+                d_raised, d_stops = self.drive(consumers[0], events, kws)
+                for kw in kws:
+                    summary.status(**kw)
+                summary.stopTestRun()
+                x_raised, x_stops = self.drive(consumers[2], events, kws, skip_exists=True)
+                # library objects only: exceptions come out of TestResult.addSkip/addFailure when an attachment is not text
+                for kw in kws:
+                    try:
+                        real.status(**kw)
+                    except (ValueError, UnicodeDecodeError):
+                        pass
+                for _ in range(len(events) + 2):
+                    try:
+                        real.stopTestRun()
+                        break
+                    except (ValueError, UnicodeDecodeError):
+                        pass
                 ids = lambda xs: [S.un_test_id((x[0] if isinstance(x, tuple) else x).id()) for x in xs]
-                out.append([list(reports),
+                out.append([list(reports), d_raised, d_stops,
                             [summary.testsRun, ids(summary.errors), ids(summary.failures), ids(summary.skipped),
                              ids(summary.expectedFailures), ids(summary.unexpectedSuccesses), bool(summary.wasSuccessful())],
-                            list(ext.ev)])
+                            list(ext.ev), x_raised, x_stops, list(Real.started)])
             return out
         except Exception as e:
             return ['raised', type(e).__name__]
@@ -119,7 +199,13 @@ class C10(Prop):
             n = rng.choice([0, 1, 2, 3, 5, 8, 12, 18, 25])
             routes = rng.choice([[None], [None, None, ROUTES[1]], [None, ROUTES[1], ROUTES[3]], [None, None, None, ROUTES[1], ROUTES[2], ROUTES[3]]])
             names = rng.choice([[2], [1, 2], [0, 2], [0, 1, 2, 2, 3]])
-            runs.append([self.gen_event(rng, binary, ids, routes, names) for _ in range(n)])
+            events = [self.gen_event(rng, binary, ids, routes, names) for _ in range(n)]
+            faults = []
+            if rng.random() < 0.4:
+                # the consumer's callback raises at 1-3 hand-overs (some beyond the last one: no effect)
+                hi = max(2, sum(1 for e in events if e[0] is not None) // 2 + 1)
+                faults = sorted(set(rng.randrange(hi) for _ in range(rng.choice([1, 1, 2, 3]))))
+            runs.append([events, faults])
         return runs
 
     ALPHABET = None
@@ -144,13 +230,17 @@ class C10(Prop):
         a = self.alphabet()
         for n in range(0, 5):
             for seq in itertools.product(a, repeat=n):
-                yield [list(seq)]
+                yield [[list(seq), []]]
+        for n in range(1, 4):
+            for seq in itertools.product(a, repeat=n):
+                for faults in ([0], [1], [0, 1], [2]):
+                    yield [[list(seq), faults]]
 
     # ----- evidence
     def stats(self, inp):
         lifetimes = opens = multichunk = keyed = 0
         maxlife = 0
-        for run in inp:
+        for run, _faults in inp:
             per = {}
             for e in run:
                 if e[0] is None:
@@ -186,13 +276,20 @@ class C10(Prop):
 
     def features(self, inp, trace):
         keyed, lifetimes, opens, multichunk, maxlife = self.stats(inp)
-        n = sum(len(r) for r in inp)
+        n = sum(len(r[0]) for r in inp)
         f = ['runs=%d' % len(inp), 'events=%s' % ('0' if n == 0 else '1-5' if n <= 5 else '6-15' if n <= 15 else '16+'),
              'lifetimes=%s' % (lifetimes if lifetimes < 4 else '4-7' if lifetimes < 8 else '8+'),
              'open=%s' % (opens if opens < 3 else '3+'), 'max-lifetimes-per-key=%s' % (maxlife if maxlife < 4 else '4+')]
         if multichunk:
             f.append('multi-chunk-attachment')
-        for run in inp:
+        for run, faults in inp:
+            finals = sum(1 for e in run if e[0] is not None and e[1] is not None and e[1][1] != 'inprogress')
+            if not faults:
+                f.append('faults:none')
+            if any(k < finals for k in faults):
+                f.append('fault-at-final-status')
+            if any(finals <= k < lifetimes for k in faults) and len(inp) == 1:
+                f.append('fault-at-stopTestRun')
             for e in run:
                 if e[0] is None:
                     f.append('event:no-id')
@@ -207,13 +304,15 @@ class C10(Prop):
         for i in range(len(inp)):
             if len(inp) > 1:
                 yield inp[:i] + inp[i + 1:]
-            run = inp[i]
+            run, faults = inp[i]
+            for j in range(len(faults)):
+                yield inp[:i] + [[run, faults[:j] + faults[j + 1:]]] + inp[i + 1:]
             for j in range(len(run)):
-                yield inp[:i] + [run[:j] + run[j + 1:]] + inp[i + 1:]
+                yield inp[:i] + [[run[:j] + run[j + 1:], faults]] + inp[i + 1:]
             for j, e in enumerate(run):
                 for pos, blank in ((2, None), (5, None), (9, None), (7, None), (8, None), (4, None)):
                     if e[pos] is not None:
-                        yield inp[:i] + [run[:j] + [e[:pos] + [blank] + e[pos + 1:]] + run[j + 1:]] + inp[i + 1:]
+                        yield inp[:i] + [[run[:j] + [e[:pos] + [blank] + e[pos + 1:]] + run[j + 1:], faults]] + inp[i + 1:]
 
 
 PROP = C10()
